@@ -481,6 +481,21 @@ def rule_task_closure(m, rep, rid='R4', handler=False, parts=None):
                 fn = hct[2][0]
                 if not any(x[0] == 'payload' and x[2] == 'Some' for x in walk(fn)):
                     bad.append('handler callee is not the Some payload of the configured handler')
+                # ... of the handler as configured: between the stored Option and the call only views (as_ref, as_deref, deref,
+                # clone of an Arc), nothing that can turn Some into None depending on the error (`.filter(|_| e.kind() != ..)`)
+                for x in walk(fn):
+                    if x[0] == 'payload' and x[2] == 'Some':
+                        y = x[1]
+                        while True:
+                            y = strip_views(y)
+                            if y[0] == 'call' and isinstance(y[1], str) and len(y[2]) == 1 and y[1] in (
+                                    'core::option::Option::as_ref', 'core::option::Option::as_deref', 'core::option::Option::as_mut',
+                                    '<core::option::Option as core::clone::Clone>::clone'):
+                                y = y[2][0]
+                                continue
+                            break
+                        if field_path_of(y) is None:
+                            bad.append('the handler is looked up through %s: it can be missing although one is configured' % fmt(y)[:80])
                 gs = guards_of(T, h) or []
                 some_guard = any(norm(dt)[0] == 'discr' and any(l == ('variant', 'Some') for l in labels) for dt, labels, _ in gs)
                 err_guard = h in reach(b, err_e) and h not in reach(b, ok_e)
@@ -947,6 +962,18 @@ def rule_counters(m, rep, only=None):
             why.append('queued() does not compute submitted - drained')
         rep.ob('C15-R4', 'queued-never-wraps', okq, b.where(),
                'the subtraction is dominated by submitted > drained (or saturating): result in [0, submitted]' if okq else '; '.join(why))
+        # ... and it is submitted - drained, not the other way round (which `saturating_sub` would quietly turn into 0)
+        dirs = []
+        for bi, si in raw:
+            tm = norm(T.rvalue_term(b.blocks[bi]['stmts'][si]['rv'], bi, si))
+            dirs.append(((atom(tm[2]) or '?')[0], (atom(tm[3]) or '?')[0], bi))
+        for bi in sat:
+            ct = norm(T.call_term(bi))
+            if ct[0] == 'call' and len(ct[2]) == 2:
+                dirs.append(((atom(ct[2][0]) or '?')[0], (atom(ct[2][1]) or '?')[0], bi))
+        okdir = bool(dirs) and all(a_ == 'S' and c_ == 'D' for a_, c_, _ in dirs)
+        rep.ob('C15-R4', 'queued-is-submitted-minus-drained', okdir, b.where(dirs[0][2]) if dirs else b.where(),
+               'the difference is taken as submitted - drained' if okdir else 'the difference is taken as %s' % ['%s - %s' % (a_, c_) for a_, c_, _ in dirs])
         # uses the two counters
         loads = [norm(T.call_term(bi)) for bi, t in b.calls() if callee_is(t, 'core::sync::atomic::Atomic::load')]
         names_ = sorted(set(atom(x)[0] for x in loads if atom(x)))
